@@ -150,4 +150,52 @@ theorem tgtOk_of_spec (app : App) (hw : WfApp app) (hall : ∀ i ∈ app.instrs,
   simp only [hsz, if_false] at hwf
   exact tgtOk_of_spec_go app hw hall fuel ctx m 0#32 0 #[] hR (by simp) hwf
 
+/-- **the unpipelined run ends when the specification run does**: a state it reaches after some number of steps halts -/
+theorem seq_halts_of_spec_go (app : App) (hw : WfApp app) :
+    ∀ (fuel : Nat) (ctx : Model.Context) (m : Spec.Machine) (pc : Word) (k : Nat) (tr : Array Spec.Event),
+      Proofs.Refine.Rel ctx m → pc.toNat ≤ 4 * app.instrs.length →
+      (∀ why, (Spec.run.go (specProg app) fuel pc m k tr).stop ≠ .notWf why) →
+      ∃ (N : Nat) (aN : Arch), Proofs.Mvp4.seqIter app N ⟨ctx, pc⟩ = some aN ∧
+        ∃ hk c, stepArch Proofs.Mvp4.dc app aN = .halt hk c := by
+  intro fuel
+  induction fuel with
+  | zero =>
+    intro ctx m pc k tr _ _ hwf
+    exact absurd rfl (hwf "fuel exhausted")
+  | succ fuel ih =>
+    intro ctx m pc k tr hR hpc hwf
+    obtain ⟨hnext, hoff, hret, herr⟩ := step_sim Proofs.Mvp4.dc app hw ctx m hR pc hpc
+    unfold Spec.run.go at hwf
+    cases hs : Spec.step (specProg app) pc m with
+    | inl s =>
+      rw [hs] at hwf
+      simp only at hwf
+      refine ⟨0, ⟨ctx, pc⟩, rfl, ?_⟩
+      cases s with
+      | ret => obtain ⟨c, hc⟩ := hret hs; exact ⟨_, c, hc⟩
+      | offEnd => obtain ⟨c, hc⟩ := hoff hs; exact ⟨_, c, hc⟩
+      | error e => obtain ⟨c, hc⟩ := herr e hs; exact ⟨_, c, hc⟩
+      | notWf w => exact absurd rfl (hwf w)
+    | inr x =>
+      obtain ⟨pc', m', ev⟩ := x
+      rw [hs] at hwf
+      simp only at hwf
+      obtain ⟨ctx', c, hc, hR', hpc'⟩ := hnext pc' m' ev hs
+      obtain ⟨N, aN, h1, h2⟩ := ih ctx' m' pc' _ _ hR' hpc' hwf
+      refine ⟨N + 1, aN, ?_, h2⟩
+      rw [Proofs.Mvp4.seqIter_front]
+      simp only [Proofs.Mvp4.seqNext, hc, Option.bind_some]
+      exact h1
+
+theorem seq_halts_of_spec (app : App) (hw : WfApp app) (ctx : Model.Context) (m : Spec.Machine)
+    (hR : Proofs.Refine.Rel ctx m) (fuel : Nat) (hwf : ∀ why, (Spec.run (specProg app) m fuel).stop ≠ .notWf why) :
+    ∃ (N : Nat) (aN : Arch), Proofs.Mvp4.seqIter app N ⟨ctx, 0#32⟩ = some aN ∧
+      ∃ hk c, stepArch Proofs.Mvp4.dc app aN = .halt hk c := by
+  unfold Spec.run at hwf
+  have hsz : ¬ (specProg app).instrs.size ≥ 250 := by
+    have := hw.small
+    simp [specProg]; omega
+  simp only [hsz, if_false] at hwf
+  exact seq_halts_of_spec_go app hw fuel ctx m 0#32 0 #[] hR (by simp) hwf
+
 end Proofs.Mvp60Sl
